@@ -2,6 +2,7 @@
 // property's workload drives the real library through the same public entry points.
 #pragma once
 #include "lib.hpp"
+#include <cerrno>
 #include "engine.hpp"
 #include "simfs.hpp"
 #include <climits>
@@ -144,6 +145,7 @@ static ApiResult execApi(World &w, const Op &op)
     ApiResult res;
     Run &run = *w.run;
     Hasher &log = run.log;
+    errno = 0;   // the library appends strerror(errno) to some error texts even when no libc call failed: start every call from a defined value
     if(op.kind == A_INIT)
     {
         if(w.inst.size() >= w.maxInst) return res;
@@ -175,7 +177,7 @@ static ApiResult execApi(World &w, const Op &op)
         log.add((uint64_t)opn2_getNumChips(d)); log.add((uint64_t)opn2_getNumChipsObtained(d));
         log.add((uint64_t)opn2_getLfoEnabled(d)); log.add((uint64_t)opn2_getLfoFrequency(d)); log.add((uint64_t)opn2_getChipType(d));
         log.add((uint64_t)opn2_getAutoArpeggio(d)); log.add((uint64_t)opn2_getVolumeRangeModel(d)); log.add((uint64_t)opn2_getChannelAllocMode(d));
-        log.add(strlen(opn2_chipEmulatorName(d))); log.add(strlen(opn2_errorInfo(d))); { const char *ge = opn2_errorString(); if(w.observeGlobalErrorString) log.add(strlen(ge)); }
+        log.add(strlen(opn2_chipEmulatorName(d))); log.add(strlen(opn2_errorInfo(d))); { const char *ge = opn2_errorString(); (void)strlen(ge); }   /* called (memory safety), not logged: the string is process-wide by contract, so its content depends on what earlier runs of the same worker process did */
         log.add(strlen(opn2_linkedLibraryVersion())); log.add(opn2_linkedVersion()->major); log.add(strlen(opn2_emulatorName()));
         log.add((uint64_t)opn2_getSongsCount(d)); log.add((uint64_t)opn2_atEnd(d)); log.add((uint64_t)opn2_trackCount(d));
         log.addDouble(opn2_positionTell(d)); log.addDouble(opn2_totalTimeLength(d)); log.addDouble(opn2_loopStartTime(d)); log.addDouble(opn2_loopEndTime(d));
